@@ -179,6 +179,15 @@ class PG(object):
                         out.extend(self.block(1))
                         out.append(['WHILE NOT EOF(1)', 'LINE INPUT#1,T$', 'PRINT "r:";T$', 'WEND'])
                         out.append(['CLOSE 1'])
+                elif r.random() < 0.4:
+                    # text I/O on the record buffer of a random file, item by item across statements
+                    out.append(['OPEN "R",2,"%s",32' % fn])
+                    out.append(['PRINT#2,A%%;%d;N%%+%d;"t" ' % (r.randint(10, 99), r.randint(1, 9))])
+                    out.append(['PUT 2,1', 'GET 2,1'])
+                    out.append(['INPUT#2,B%'])
+                    out.extend(self.block(1))
+                    out.append(['INPUT#2,E%', 'PRINT "rec";B%;E%'])
+                    out.append(['INPUT#2,L%', 'PRINT "rec";L%', 'CLOSE 2'])
                 else:
                     out.append(['OPEN "R",2,"%s",16' % fn, 'FIELD 2,4 AS RA$,12 AS RB$'])
                     out.append(['LSET RA$=MKI$(A%)+"zz"', 'RSET RB$=S$', 'PUT 2,%d' % r.randint(1, 4)])
@@ -249,7 +258,8 @@ def gen(rng, tier, prop):
             else:
                 ops.append({'op': 'quit_mid', 'frac': round(rng.random(), 4)})
     if rng.random() < 0.25:
-        ops.append({'op': 'corrupt', 'positions': [round(rng.random(), 5) for _ in range(12)], 'xor': rng.choice([1, 0x80, 0xff, 0x10])})
+        ops.append({'op': 'corrupt', 'positions': [round(rng.random(), 5) for _ in range(12)], 'xor': rng.randint(1, 255),
+                    'stride': 1 if tier == 'thorough' else 9, 'offset': rng.randint(0, 8)})
     cfg = {
         'program': lines, 'inputs': inputs,
         'session': {'syntax': rng.choice(['advanced', 'advanced', 'pcjr', 'tandy'])},
@@ -522,25 +532,41 @@ def _corrupt(run, cfg, scratch, op):
         with open(path, 'rb') as f:
             good = f.read()
         n = len(good)
-        positions = sorted(set([0, 3, 4, 5, 7, 8, 12, 16, 20, 23, 24, n - 1] + [int(p * n) for p in op['positions']]))
-        for pos in positions:
-            if pos >= n:
-                continue
-            bad = bytearray(good)
-            bad[pos] ^= op['xor']
-            bp = os.path.join(root, 'bad.state')
-            with open(bp, 'wb') as f:
-                f.write(bytes(bad))
-            run.probe('corruptions_tried')
-            try:
-                s = Session.resume(bp)
-            except Exception:
-                continue
-            region = 'checksum' if pos < 4 else 'header-format-version' if pos < 8 else 'header' if pos < 24 else 'payload'
-            run.violate('C40', 'altered-state-file-accepted:%s' % region,
-                        'state file of %d bytes with byte %d xor 0x%02x was loaded without complaint' % (n, pos, op['xor']))
-            try:
-                s.close()
-            except Exception:
-                pass
-            return
+        # every alteration of the first 48 bytes (header and the start of the compressed stream), every
+        # position with three alterations (a rejected file costs a checksum only), sampled positions with op['xor']
+        trials = [(pos, x) for pos in range(min(48, n)) for x in range(1, 256)]
+        stride = int(op.get('stride', 1))
+        trials += [(pos, x) for pos in range(48 + int(op.get('offset', 0)) % stride, n, stride) for x in (1, 0x80, 0xff)]
+        trials += [(pos, x) for pos in range(max(48, n - 16), n) for x in (1, 0x80, 0xff)]
+        trials += [(int(p * n), op['xor']) for p in op['positions'] if int(p * n) < n]
+        bp = os.path.join(root, 'bad.state')
+        bpf = None
+        last = None
+        try:
+            for pos, x in trials:
+                if bpf is None:
+                    with open(bp, 'wb') as f:
+                        f.write(good)
+                    bpf = open(bp, 'r+b', buffering=0)
+                if last is not None:
+                    bpf.seek(last)
+                    bpf.write(good[last:last + 1])
+                bpf.seek(pos)
+                bpf.write(bytes([good[pos] ^ x]))
+                last = pos
+                run.probe('corruptions_tried')
+                try:
+                    s = Session.resume(bp)
+                except Exception:
+                    continue
+                region = 'checksum' if pos < 4 else 'header-format-version' if pos < 8 else 'header' if pos < 24 else 'payload-start' if pos < 48 else 'payload'
+                run.violate('C40', 'altered-state-file-accepted:%s' % region,
+                            'state file of %d bytes with byte %d xor 0x%02x was loaded without complaint' % (n, pos, x))
+                try:
+                    s.close()
+                except Exception:
+                    pass
+                return
+        finally:
+            if bpf is not None:
+                bpf.close()
